@@ -82,3 +82,42 @@ PROPS['C18'] = dict(
 
 NOT_APPLICABLE = {}
 HOOK_COMMITS = []
+
+_RT_RULE = ("rt suite: a caller-built value of one of 13 message kinds (tags of every length class, int64 edge "
+            "timestamps, EventTimes in the 32-bit domain in several zones, type-directed records: every int/uint "
+            "width, float specials, strings/binaries at length-class boundaries, nested maps/arrays, occasionally an "
+            "unencodable leaf; options nil/empty/every subset) is encoded by MarshalMsg (onto a non-empty prefix) "
+            "and by msgp.Encode through a Writer, and each encoding is decoded by UnmarshalMsg and DecodeMsg: 4 "
+            "lines per value. distinct = distinct (op,args); non-trivial = every executed line")
+_RT_SUITE = dict(suite='rt', n=dict(quick=1500, thorough=30000), shards=dict(quick=1, thorough=16), trivial=r'^-$')
+
+PROPS['C01'] = dict(
+    lean_modules=['FluentVerif.Props.C01'],
+    theorems=['FV.C01_Message', 'FV.C01_MessageExt', 'FV.C01_Forward', 'FV.C01_Packed', 'FV.C01_Entry', 'FV.C01_EntryExt',
+              'FV.C01_Options', 'FV.C01_Ack', 'FV.C01_HeloOpts', 'FV.C01_Helo', 'FV.C01_Ping', 'FV.C01_Pong',
+              'FV.C01_alt_record', 'FV.C01_concat_Message'],
+    suites=[_RT_SUITE, _CODEC_SUITE],
+    rule=_RT_RULE + ' || ' + _CODEC_RULE,
+    explanation="C01_T: for every representable message, T.unmarshal p recv (T.marshal m ++ x) = ok (norm m) x for both "
+                "decoder paths, every receiver and every trailing x; C01_alt_record: every legal encoding of a plain record "
+                "decodes to the object the specification parser finds; C01_concat. Correspondence (rt): the encoder model "
+                "equals the bytes of both real encoder paths, the decoder model equals both real decoders, and the oracle "
+                "checks that the real round trip returns the original value with nothing left and that MarshalMsg only "
+                "appends; (codec, class a): alternative legal encodings from an independent encoder decode as the model says.",
+    assumptions=_CODEC_ASSUME + ["Go map iteration order is recovered from the observed bytes; theorems hold for every order",
+                                 "message-level theorem for alternative encodings of the fixed fields and option maps "
+                                 "(other widths, unknown keys) is covered by correspondence + C13/C01_alt_record, not yet by one theorem"],
+)
+
+PROPS['C02'] = dict(
+    lean_modules=['FluentVerif.Props.C02'],
+    theorems=['FV.C02_Message', 'FV.C02_MessageExt', 'FV.C02_Forward', 'FV.C02_Packed', 'FV.C02_packed_stream', 'FV.C02_options',
+              'FV.C02_ack', 'FV.C02_helo', 'FV.C02_ping', 'FV.C02_pong', 'FV.C02_eventtime'],
+    suites=[_RT_SUITE],
+    rule=_RT_RULE,
+    explanation="C02_T: the bytes the encoder model emits are exactly one msgpack value that satisfies the Forward v1 grammar "
+                "predicate for its mode (specification parser + grammar in Forward/Spec.lean, sharing nothing with the "
+                "encoder models). Correspondence (rt): the real bytes of both encoder paths equal the model's, and the "
+                "grammar oracle (incl. 'every type-0 extension is a fixext8') is evaluated on the real bytes.",
+    assumptions=_CODEC_ASSUME,
+)
